@@ -255,6 +255,9 @@ def attributes(tokeniser: Any) -> list[Route]:
         ipmask = prefix(tokeniser)
         # Copy template settings and update with new CIDR
         settings = copy(template_settings)
+        # the family of a prefix is its own: the template took the one of the LAST prefix of the line, and
+        # `nlri 10.0.0.0/24 2001:db8::/32` announced the first as a00::/24
+        settings.afi = ipmask.afi
         settings.cidr = CIDR.create_cidr(ipmask.pack_ip(), ipmask.mask)
         settings.action = Action.UNSET
 
